@@ -160,8 +160,14 @@ def under_assumptions(S, node, extra=()):
     sole-exit rejection loop (e.g. `random_non_identity`) and optional extra literals."""
     b = S.alg.bdd
     asm = 1
+    vm = S.eng.__dict__.get("vmaps", {})
+    sub = {("idx", u): ("I",) for u in vm}
     for n in S.eng.assumed:
         asm = b.AND(asm, S.alg.nb(n))
+        if sub:
+            # the same guard seen from inside a vector comprehension (canonical binder)
+            n2 = S.eng.bdd_subst(n, sub)
+            asm = b.AND(asm, S.alg.nb(n2))
     for e in extra:
         asm = b.AND(asm, e)
     r = node
